@@ -151,8 +151,17 @@ def bounded_leaves(prop, work, tier, seed, open_known):
     for spec, (out, err) in zip(specs, outs):
         if out is None:
             res['report'].append({'harness': spec['harness'], 'error': err})
-            res['violations'].append({'obligation': 'bounded:%s' % spec['harness'], 'path': _write(work, 'bounded_' + spec['harness'], {'error': err}),
-                                      'failing_input': None, 'harness_error': err}) if 'does not build' in (err or '') and False else None
+            if err and 'does not build' in err:
+                # the replay crate no longer compiles against this tree: the stand-in cannot run (tool limit)
+                res.setdefault('undecided', []).append('bounded harness %s: %s' % (spec['harness'], err[:300]))
+            else:
+                # the harness built but died while executing the real code (abort, stack overflow, signal, timeout)
+                ob = 'bounded:%s' % spec['harness']
+                path = _write(work, 'bounded_' + spec['harness'] + '_crash', {'property': prop, 'obligation': ob,
+                              'failing_input': {'fn': spec['harness'], 'input': 'the whole harness run', 'got': err, 'class': 'crash'},
+                              'replay_cmd': '%s search %s --tier %s --seed %s' % (os.path.join(ROOT, '.build/release/pv-replay'), spec['harness'], tier, seed),
+                              'harness': spec['harness']})
+                res['violations'].append({'obligation': ob, 'path': path, 'failing_input': {'fn': spec['harness'], 'input': 'harness run', 'got': err}})
             continue
         res['evaluations'] += out.get('cases', 0)
         res['distinct_nontrivial'] += out.get('distinct_nontrivial', 0)
